@@ -288,6 +288,7 @@ type Observation struct {
 	ID       string
 	Vals     map[string]string // field -> Canon (to-many as given) ; ValsSet -> CanonSet
 	ValsSet  map[string]string
+	ValsBag  map[string]string // to-many lists in sorted order, repetitions kept
 	Types    map[string]string // field -> dynamic Go type ("<nil>" for untyped nil)
 }
 
@@ -315,7 +316,7 @@ func sortedRelNames(m map[string]jsonapi.Rel) []string {
 
 // Observe reads a resource through its interface only.
 func Observe(r jsonapi.Resource) *Observation {
-	o := &Observation{Vals: map[string]string{}, ValsSet: map[string]string{}, Types: map[string]string{}}
+	o := &Observation{Vals: map[string]string{}, ValsSet: map[string]string{}, ValsBag: map[string]string{}, Types: map[string]string{}}
 	o.TypeName = r.GetType().Name
 	id, _ := r.Get("id").(string)
 	o.ID = id
@@ -327,6 +328,7 @@ func Observe(r jsonapi.Resource) *Observation {
 		v := r.Get(a.Name)
 		o.Vals[a.Name] = Canon(v)
 		o.ValsSet[a.Name] = CanonSet(v)
+		o.ValsBag[a.Name] = CanonBag(v)
 		o.Types[a.Name] = fmt.Sprintf("%T", v)
 	}
 
@@ -338,10 +340,34 @@ func Observe(r jsonapi.Resource) *Observation {
 		v := r.Get(rel.FromName)
 		o.Vals[rel.FromName] = Canon(v)
 		o.ValsSet[rel.FromName] = CanonSet(v)
+		o.ValsBag[rel.FromName] = CanonBag(v)
 		o.Types[rel.FromName] = fmt.Sprintf("%T", v)
 	}
 
 	return o
+}
+
+// StringBag renders an observation with to-many lists in sorted order and their
+// repetitions kept: what stays the same when only the order of the IDs changes.
+func (o *Observation) StringBag() string {
+	var sb strings.Builder
+
+	fmt.Fprintf(&sb, "type=%q id=%q attrs=%v rels=%v vals={", o.TypeName, o.ID, o.Attrs, o.Rels)
+
+	names := make([]string, 0, len(o.Vals))
+	for k := range o.Vals {
+		names = append(names, k)
+	}
+
+	sort.Strings(names)
+
+	for _, k := range names {
+		fmt.Fprintf(&sb, " %q=%s", k, o.ValsBag[k])
+	}
+
+	sb.WriteString(" }")
+
+	return sb.String()
 }
 
 // String renders an observation; set selects set semantics for to-many lists.
